@@ -1772,7 +1772,9 @@ func (t *http2Client) reader(errCh chan<- error) {
 		case *http2.PingFrame:
 			t.handlePing(frame)
 		case *http2.GoAwayFrame:
-			errClose = t.handleGoAway(frame)
+			if errClose = t.handleGoAway(frame); errClose != nil {
+				return
+			}
 		case *http2.WindowUpdateFrame:
 			t.handleWindowUpdate(frame)
 		default:
